@@ -40,12 +40,14 @@ def selftest(prop):
     import subprocess
     out = {'mutants': [], 'refactors': [], 'applied': 0, 'detected': 0, 'skipped': 0, 'refactors_quiet': 0}
     pats = [('mutants', os.path.join(VERIF, 'mutants', '%s_*.diff' % prop.lower())),
+            # breaking changes written by independent sub-agents for this property (confirmed by hand, see seeded/<id>/meta.json)
+            ('mutants', os.path.join(VERIF, 'seeded', '%s-*' % prop, 'patch.diff')),
             ('refactors', os.path.join(VERIF, 'mutants', 'refactor_%s_*.diff' % prop.lower()))]
     for kind, pat in pats:
         for f in sorted(glob.glob(pat)):
             env = dict(os.environ, VERIF_NO_SELFTEST='1', MUTANT_TIER='quick')
             r = subprocess.run([os.path.join(VERIF, 'bin', 'mutant'), f, prop], stdout=subprocess.PIPE, stderr=subprocess.STDOUT, text=True, env=env)
-            name = os.path.basename(f)
+            name = os.path.basename(f) if os.path.basename(f) != 'patch.diff' else 'seeded/' + os.path.basename(os.path.dirname(f))
             if 'PATCH-DOES-NOT-APPLY' in r.stdout or 'EXTRACTION FAILED' in r.stdout:
                 out['skipped'] += 1
                 out[kind].append({'patch': name, 'result': 'skipped (does not apply / build)'})
